@@ -255,12 +255,13 @@ def _apply_field_alias(units, pmap, fmap):
                         f["name"] = fm.get(f["name"], f["name"])
 
 
-def alias_fns(units, ref, notes):
+def alias_fns(units, ref, notes, relaxed=False, have=None):
     cur = {}
     for u in units.values():
         for b in u["bodies"]:
             cur[_sg(b["name"])] = b
-    fmap = {}                       # new key -> reference key
+    fmap = dict(have or {})        # new key -> reference key
+    n0 = len(fmap)
 
     def akey(k):
         for n, o in fmap.items():
@@ -283,7 +284,7 @@ def alias_fns(units, ref, notes):
             # same enclosing module / impl counts for a little: it separates siblings with identical bodies
             # (`sources::run` / `targets::run` renamed alike)
             par = m.rsplit("::", 1)[0]
-            cands = [(k, _jacc(mf, ufe[k][1]) + (0.2 if akey(k).rsplit("::", 1)[0] == par else 0.0)) for k in unknown if ufe[k][0] == ms]
+            cands = [(k, _jacc(mf, ufe[k][1]) + (0.2 if akey(k).rsplit("::", 1)[0] == par else 0.0)) for k in unknown if ufe[k][0] == ms or relaxed]
             for k, s in cands:
                 pairs.append((s, m, k, len(cands)))
         pairs.sort(key=lambda x: -x[0])
@@ -296,13 +297,18 @@ def alias_fns(units, ref, notes):
             rivals_m = [p for p in pairs if p[1] == m and p[2] != k and p[2] not in used_k]
             rivals_k = [p for p in pairs if p[2] == k and p[1] != m and p[1] not in used_m]
             best_rival = max([p[0] for p in rivals_m + rivals_k] or [0.0])
-            ok = (s >= thr and s - best_rival >= 0.15) or (s >= 0.2 and not rivals_m and not rivals_k)
+            if relaxed:
+                # the signature changed too (parameters bundled into a struct, a free fn turned into a method):
+                # only a clear, unrivalled body match is accepted
+                ok = s >= 0.62 and s - best_rival >= 0.25
+            else:
+                ok = (s >= thr and s - best_rival >= 0.15) or (s >= 0.2 and not rivals_m and not rivals_k)
             if ok:
                 fmap[k] = m
                 used_m.add(m)
                 used_k.add(k)
                 progress = True
-                notes.append("function %s is taken for the reference function %s (same signature, body similarity %.2f%s)" % (k, m, min(s, 1.0) if s <= 1.0 else s - 0.2, ", same parent" if s > 1.0 or akey(k).rsplit("::", 1)[0] == m.rsplit("::", 1)[0] else ""))
+                notes.append("function %s is taken for the reference function %s (%s, body similarity %.2f%s)" % (k, m, "signature changed" if relaxed else "same signature", min(s, 1.0) if s <= 1.0 else s - 0.2, ", same parent" if s > 1.0 or akey(k).rsplit("::", 1)[0] == m.rsplit("::", 1)[0] else ""))
         if not progress and rnd >= 1:
             break
     return fmap
@@ -423,18 +429,24 @@ def inline_new_helpers(units, ref, fn_alias, notes, max_depth=4):
                 out.append((i, _sg(t["resolved"])))
         return out
     # recursion check among the new helpers
-    def reaches_self(k):
+    def reaches_self(k, stops=frozenset()):
         seen, st = set(), [k]
         while st:
             x = st.pop()
             for _, c in callees(cur[x]):
                 if c == k:
                     return True
-                if c in new and c not in seen:
+                if c in new and c not in seen and c not in stops:
                     seen.add(c)
                     st.append(c)
         return False
-    inl = {k for k in new if not reaches_self(k)}
+    rec = {k for k in new if reaches_self(k)}
+    # a recursive routine that was split into a recursive entry plus helpers (entry -> helper -> entry): the entry is
+    # the member called from outside the new code; the recursion is cut there and the other members are spliced in
+    roots = {k for k in rec if any(c == k for kk, b in cur.items() if kk not in new for _, c in callees(b))}
+    inl = {k for k in new if k not in roots and not reaches_self(k, stops=roots)}
+    for r in sorted(roots):
+        notes.append("new recursive routine %s: its new helpers are spliced into it, the recursion stays a call" % r)
     inlined_into = {}
     for _depth in range(max_depth):
         changed = False
@@ -476,4 +488,10 @@ def canonicalise(units):
     import facts
     facts.set_alias(fn_alias)
     inline_new_helpers(units, ref, fn_alias, notes)
-    return fn_alias, notes
+    # second pass, after splicing: a routine whose signature changed as well is recognised by its (now complete) body
+    facts.set_alias({})
+    fn_alias2 = alias_fns(units, ref, notes, relaxed=True, have=fn_alias)
+    facts.set_alias(fn_alias2)
+    if len(fn_alias2) > len(fn_alias):
+        inline_new_helpers(units, ref, fn_alias2, notes)
+    return fn_alias2, notes
